@@ -49,8 +49,8 @@ def wrapSym (mech : Nat) (p : MParam) (kek kd : Bytes) : Except RV Bytes :=
   else if mech == CKM.AES_KEY_WRAP_PAD then .ok (rfc5649Wrap E kd)
   else if mech == CKM.AES_CBC_PAD then .ok (cbcEncrypt E ((p.raw.headD []).take 16) (pkcs7Pad 16 kd))
   else if mech == CKM.AES_CBC then
-    -- no padding; the IV argument is not used (`blocksize` stays 0 in WrapKeySym): an all-zero IV
-    if kd.length % 16 != 0 then .error CKR.GENERAL_ERROR else .ok (cbcEncrypt E (List.replicate 16 0) kd)
+    -- no padding, the caller's IV (the parameter check has made it 16 bytes)
+    if kd.length % 16 != 0 then .error CKR.GENERAL_ERROR else .ok (cbcEncrypt E ((p.raw.headD []).take 16) kd)
   else .error CKR.MECHANISM_INVALID
 
 def unwrapSym (mech : Nat) (p : MParam) (kek blob : Bytes) : Except RV Bytes :=
